@@ -33,9 +33,6 @@ func crashUnits(prop, tier string) []Unit {
 				o.Nested = 0
 			}
 			if w.Name == "W11-megabyte-multikey" {
-				if tier != "thorough" {
-					continue
-				}
 				budgets = []int{0}
 				o.Nested = 0
 				o.Clocks = []int{2}
